@@ -5,6 +5,7 @@ mod c15;
 mod c17;
 mod entries;
 mod fuzz;
+mod idrules;
 mod layout;
 mod master;
 mod proto;
@@ -281,6 +282,11 @@ fn run(cmd: &str, args: &[String], seed: u64, rep: &mut Report) {
             let mut trace = Vec::new();
             c14::replay(&ctx, seed, arg_u64(&args, "--reps", 8) as usize, &mut rep, &mut trace);
             c14::eco_ports(&mut rep, &mut trace);
+            write_ndjson(arg(&args, "--out-trace").unwrap(), &trace);
+        }
+        "idrules" => {
+            let mut trace = Vec::new();
+            idrules::replay(&read_ndjson(arg(&args, "--in").unwrap()), seed, arg_u64(&args, "--reps", 2) as usize, &mut rep, &mut trace);
             write_ndjson(arg(&args, "--out-trace").unwrap(), &trace);
         }
         "settings-real" => settings::real_sockets(&mut rep),
